@@ -177,13 +177,15 @@ let tok_of_rout = function
 
 (* ---- projections; fields: bits keys errs times listing file table last ipc ---- *)
 let mk b k e t l f tb la i = { p_bits = b; p_keys = k; p_errs = e; p_times = t; p_listing = l; p_file = f; p_table = tb; p_last = la; p_ipc = i }
+(* statuses and ConnEnd deliveries are always compared; the second component says whether the session table is *)
 let projections = [
-  "all",  proj_all;
-  "nolast", mk true true true true true true true false true;
-  (* C15: the responses (flag, key, error) and the server state (listing, file, lock table) *)
-  "C15",  mk true true true false true true true false false;
-  (* C20: statuses and ConnEnd are always compared; of the lock server only what "no effect" means *)
-  "C20",  mk true false false false true true true false false;
+  "all",  (proj_all, true);
+  "nolast", (mk true true true true true true true false true, true);
+  (* C15: the responses (flag, key, error) and the server state (listing, file, lock table); not the session table *)
+  "C15",  (mk true true true false true true true false false, false);
+  (* C20: statuses, ConnEnd, session table; nothing of the lock server (what a refusal leaves unchanged is judged
+     on the real trace by c20_inert_failures, not through the model) *)
+  "C20",  (mk false false false false false false false false false, true);
 ]
 
 let split_ws s = List.filter (fun x -> x <> "") (String.split_on_char ' ' s)
@@ -212,8 +214,8 @@ let () =
        List.iter (fun pn ->
          match List.assoc_opt pn projections with
          | None -> Printf.printf "B %s unknown-projection-%s\n" !hid pn
-         | Some p ->
-           (match rreplay_history p !cfg !tmo rh with
+         | Some (p, ck) ->
+           (match rreplay_history p ck !cfg !tmo rh with
             | None -> Printf.printf "R %s rest %s ok\n" !hid pn
             | Some (i, outs) ->
                 Printf.printf "R %s rest %s mismatch %d\n" !hid pn (int_of_nat i);
